@@ -664,6 +664,23 @@ func genFacts(c *ctx, s *schema) {
 	}
 	c.side["trivia_branches"] = triviaBranches
 	c.leanSites(&b, "triviaBranches", triviaBranches)
+	// F6b: any mention of a token's FreeFloating list inside the generated parsers
+	var ffMentions []site
+	for _, rel := range []string{"internal/php5/php5.go", "internal/php7/php7.go", "internal/php5/parser.go", "internal/php7/parser.go", "internal/position/position.go"} {
+		for _, x := range files {
+			if x.rel != rel {
+				continue
+			}
+			ast.Inspect(x.f, func(n ast.Node) bool {
+				if s, ok := n.(*ast.SelectorExpr); ok && s.Sel.Name == "FreeFloating" {
+					ffMentions = append(ffMentions, c.siteOf(s.Pos(), "", callName(s)))
+				}
+				return true
+			})
+		}
+	}
+	c.side["freefloating_mentions"] = ffMentions
+	c.leanSites(&b, "freeFloatingMentions", ffMentions)
 
 	b.WriteString("\nend PhpVerif.Gen\n")
 	writeIfChanged(filepath.Join(c.out, "Facts.lean"), b.String())
